@@ -265,6 +265,11 @@ class ImplWorld:
             cache[ci] = oracles.wf_json(ChartEnc(self.charts[ci]).json)
         return cache[ci]
 
+    def op_setclock(self, i, t):
+        """move the clock without executing (the interpreter's own time stays)"""
+        self._set_clock(self.slots[i], t)
+        return None
+
     def op_queue(self, i, e):
         self.slots[i].queue(Event(e['ev'], **{k: v for k, v in e['data']}))
         return None
